@@ -15,6 +15,7 @@ package plonk
 //@   requires cd_small(commonData) && commonData.Config.NumChallenges <= pow2(16) && 1 <= commonData.QuotientDegreeFactor && commonData.NumGateConstraints <= pow2(32)
 //@   requires len(commonData.KIs) == commonData.Config.NumRoutedWires && forall(k, 0, len(commonData.KIs), commonData.KIs[k] < P)
 //@   ensures plonk_ok(res)
+//@   ensures implies(pp_relation(commonData), pp_relation(res.commonData))
 //@   loop 0 invariant -1 <= rangeindex && rangeindex < len(commonData.GateIds)
 
 // zeta^(2^degree_bits) by repeated squaring
